@@ -799,7 +799,8 @@ static void do_p(char *line, int hist)
     ABT_xstream hx[8];
     ABT_pool hp[8];
     for (i = 0; i < hosts; i++) {
-        if (ABT_xstream_create(ABT_SCHED_NULL, &hx[i]) != ABT_SUCCESS)
+        /* host streams sleep when idle (BASIC_WAIT): they are ballast in the rank list, not load on the machine */
+        if (ABT_xstream_create_basic(ABT_SCHED_BASIC_WAIT, 0, NULL, ABT_SCHED_CONFIG_NULL, &hx[i]) != ABT_SUCCESS)
             VH_DIE("host create");
         ABT_xstream_get_main_pools(hx[i], 1, &hp[i]);
     }
